@@ -21,6 +21,8 @@ type c11Case struct {
 	Verifier string `json:"verifier"`
 	// Pipeline: the case is published through real gossipsub instead of calling the validator
 	Pipeline bool `json:"pipeline,omitempty"`
+	// Metrics: the Subscriber is built with WithSubscriberMetrics (the case is its first message)
+	Metrics bool `json:"metrics,omitempty"`
 }
 
 var c11Payloads = []string{"valid", "trailing-bytes", "fails-validate", "wrong-json-type", "truncated", "empty", "random-bytes", "unknown-field",
@@ -93,11 +95,18 @@ func c11Message(kind string) (msg *pubsub.Message, decodes bool, want *vk.H) {
 func c11Exec(t *testing.T, run *vk.Run, c c11Case) {
 	run.Inflight(shardOf(t), c)
 	feat := fmt.Sprintf("payload=%s,verifier=%s", c.Payload, c.Verifier)
+	if c.Metrics {
+		feat += ",metrics"
+	}
 	viol := func(clause, format string, a ...any) {
 		run.Violate("C11/"+clause+"/"+feat, c, "%s: %s", feat, fmt.Sprintf(format, a...))
 	}
 	br := vk.Bubble(t, func() {
-		sub, err := p2p.NewSubscriber[*vk.H](nil, nil, p2p.WithSubscriberNetworkID(netID))
+		sopts := []p2p.SubscriberOption{p2p.WithSubscriberNetworkID(netID)}
+		if c.Metrics {
+			sopts = append(sopts, p2p.WithSubscriberMetrics())
+		}
+		sub, err := p2p.NewSubscriber[*vk.H](nil, nil, sopts...)
 		if err != nil {
 			run.HarnessError("C11 NewSubscriber: %v", err)
 			return
@@ -188,7 +197,7 @@ func c11Exec(t *testing.T, run *vk.Run, c c11Case) {
 func TestC11(t *testing.T) {
 	run := vk.NewRun("C11", "model_checking")
 	defer run.Finish()
-	run.SetRule("the Subscriber's real topic validator (exported under the verif tag) is run on every payload in {valid, trailing bytes, fails Validate, wrong JSON type, truncated, empty, random bytes, unknown field, local ValidatorData ok / failing Validate / wrong type, UnmarshalBinary panics} x every verifier outcome in {nil, bare/wrapped/joined soft, bare/wrapped hard, plain error, panic, never set (context expiry), set later returning nil / hard}; plus the same classes published through real gossipsub between mocknet hosts; distinct = (payload, verifier, verdict)")
+	run.SetRule("the Subscriber's real topic validator (exported under the verif tag) is run on every payload in {valid, trailing bytes, fails Validate, wrong JSON type, truncated, empty, random bytes, unknown field, local ValidatorData ok / failing Validate / wrong type, UnmarshalBinary panics} x every verifier outcome in {nil, bare/wrapped/joined soft, bare/wrapped hard, plain error, panic, never set (context expiry), set later returning nil / hard} x {metrics off, metrics on (first message of a fresh Subscriber)}; plus the same classes published through real gossipsub between mocknet hosts; distinct = (payload, verifier, verdict)")
 	run.Assume("the gossipsub pipeline part observes delivery/relay; scoring effects are taken from the validation result (Reject penalises, Ignore does not) as documented by go-libp2p-pubsub")
 
 	var rc c11Case
@@ -209,6 +218,10 @@ func TestC11(t *testing.T) {
 		for _, v := range c11Verifiers {
 			c := c11Case{Payload: p, Verifier: v}
 			c11Exec(t, run, c)
+			run.AddEval(1)
+			mc := c
+			mc.Metrics = true
+			c11Exec(t, run, mc)
 			run.AddEval(1)
 			if n%13 == 0 {
 				run.Sample(c)
@@ -237,10 +250,10 @@ func c11Pipeline(t *testing.T, run *vk.Run, only *c11Case) {
 		if only != nil && (only.Payload != c.Payload || only.Verifier != c.Verifier) {
 			continue
 		}
-		run.Inflight(shardOf(t), c11Case{c.Payload, c.Verifier, true})
+		run.Inflight(shardOf(t), c11Case{Payload: c.Payload, Verifier: c.Verifier, Pipeline: true})
 		feat := fmt.Sprintf("pipeline,payload=%s,verifier=%s", c.Payload, c.Verifier)
 		viol := func(clause, format string, a ...any) {
-			run.Violate("C11/"+clause+"/"+feat, c11Case{c.Payload, c.Verifier, true}, "%s: %s", feat, fmt.Sprintf(format, a...))
+			run.Violate("C11/"+clause+"/"+feat, c11Case{Payload: c.Payload, Verifier: c.Verifier, Pipeline: true}, "%s: %s", feat, fmt.Sprintf(format, a...))
 		}
 		br := vk.Bubble(t, func() {
 			ctx, cancel := context.WithCancel(context.Background())
